@@ -43,7 +43,10 @@ StateOf(ln) == [db |-> DbOf(ln.db), udb |-> UdbOf(ln.udb), conn |-> ConnOf(ln.hi
                 rebooted |-> ln.hid.rebooted, gen |-> ln.hid.gen]
 
 First(k) == k = 1 \/ Trace[k - 1].tid # Trace[k].tid
-Pre(k)   == IF First(k) THEN InitState ELSE StateOf(Trace[k - 1])
+\* a trace may start from a given state (after a long set-up that is not recorded)
+HasPre(k) == "db" \in DOMAIN Trace[k].pre
+Pre(k)   == IF HasPre(k) THEN StateOf(Trace[k].pre)
+            ELSE IF First(k) THEN InitState ELSE StateOf(Trace[k - 1])
 
 UBag(u) == [unp |-> BagOfSeq(u.unp), umb |-> BagOfSeq(u.umb), ucv |-> BagOfSeq(u.ucv),
             cur |-> u.cur]
